@@ -147,14 +147,14 @@ Print Assumptions C08_call_discipline_partial.
 (* Non-vacuity of (6): its hypotheses are those of Properties_C01.C01_calls_partial (prog_hyps), and they hold for
    the demo program of coq/XCodegenDemo.v (a recursive procedure cd with a value formal, an array formal and a local and a recursive
    function fd, called from main), whose image is laid out as xcmp does from the model's lowered code.  Applied to
-   main's body `g := 0; cd(fd(0) - 4, a); g := fd(g) + g; g := g + a[2]; ch := get(0) + 1; put(ch, 0)` run from main's frame: after four
+   main's body `g := 0; cd(fd(0) - 4, a); g := fd(g) + g; g := g + a[2]; ch := get(0) + 1; put((fd(0) + ch) - 7, 0)` run from main's frame: after four
    nested activations of cd (each assigning an element of the global array a through its array formal), seven of fd
    and the two system calls the stack-pointer word holds 199988 as before. *)
 Example C08_call_discipline_nonvacuous_hyps :
   prog_hyps demo_ge demo_gaddr demo_aaddr demo_abase demo_alen demo_pool demo_P demo_m0 demo_lab demo_pinfo demo_stack_lo demo_stack_hi demo_maxframe.
 Proof. exact demo_hyps. Qed.
 Example C08_call_discipline_nonvacuous_run : forall a b inp, console inp = [66; 67] -> exists evs a' b' m',
-  runs inp (mk 140 a b 0 (wr demo_m0 1 199988)) evs {| console := [67]; files := files inp |} (mk 204 a' b' 0 m') /\
+  runs inp (mk 140 a b 0 (wr demo_m0 1 199988)) evs {| console := [67]; files := files inp |} (mk 219 a' b' 0 m') /\
   writes evs = [(0, 51); (0, 50); (0, 49); (0, 48); (0, 67)] /\
   rd m' 1 = 199988 /\ rd m' 2 = 63 /\ rd m' 4 = 67 /\ rd m' 199998 = 50.
 Proof. exact demo_main_body_runs. Qed.
